@@ -54,6 +54,35 @@ Theorem C11_instants_data_independent : forall tstep istep cond f1 f2 t inc idx 
 Proof. exact positions_in_fuel_mono. Qed.
 End C11.
 
+(** End to end, ideal arithmetic, calls without a mask (corollaries of the stream theorems of C05): channel c of an n-channel
+    FastFixedIn / SincFixedIn produces the stream a single-channel resampler produces from channel c's signal. *)
+From Coq Require Import Reals.
+From Rubato.Model Require Import Reals Resamplers.
+From Rubato.Proofs Require Import ContentP FastInR StreamR NearestR SincInR SincStreamR ProjectionR.
+Local Open Scope R_scope.
+
+Theorem C11_fast_in_projection_R : forall ratio0 maxrel d chunk nch sN s1 (c : nat) (X : Z -> R) callsN calls1,
+  (1 <= chunk)%Z -> (0 <= nch)%Z -> (c < Z.to_nat nch)%nat ->
+  @fast_in_new CR SR ratio0 maxrel d chunk nch = inr (RFastIn d sN) ->
+  @fast_in_new CR SR ratio0 maxrel d chunk 1 = inr (RFastIn d s1) ->
+  (forall n, (n < 0)%Z -> X n = 0) ->
+  fed c X 0 chunk callsN -> fed 0 X 0 chunk calls1 ->
+  forall rN r1 ysN ys1, fi_stream d c sN callsN = Ok (rN, ysN) -> fi_stream d 0 s1 calls1 = Ok (r1, ys1) ->
+  forall j, (0 <= j < zlen ysN)%Z -> (j < zlen ys1)%Z -> getz 0 ysN j = getz 0 ys1 j.
+Proof. exact fast_in_projection_R. Qed.
+
+Theorem C11_sinc_in_projection_R : forall ratio0 maxrel env ilen inbr chunk nch sN s1 (c : nat) (X : Z -> R) opsN ops1,
+  (1 <= chunk)%Z -> (0 <= nch)%Z -> (8 <= ilen)%Z -> nbr_ok (se_type env) inbr -> (c < Z.to_nat nch)%nat ->
+  @sinc_in_new CR SR ratio0 maxrel env ilen inbr chunk nch = inr (RSincIn env sN) ->
+  @sinc_in_new CR SR ratio0 maxrel env ilen inbr chunk 1 = inr (RSincIn env s1) ->
+  (forall n, (n < 0)%Z -> X n = 0) ->
+  sfed env c X 0 sN opsN -> sfed env 0 X 0 s1 ops1 ->
+  forall rN r1 ysN ys1, si_stream env c sN opsN = Ok (rN, ysN) -> si_stream env 0 s1 ops1 = Ok (r1, ys1) ->
+  forall j, (0 <= j < zlen ysN)%Z -> (j < zlen ys1)%Z -> getz 0 ysN j = getz 0 ys1 j.
+Proof. exact sinc_in_projection_R. Qed.
+
+Print Assumptions C11_fast_in_projection_R.
+Print Assumptions C11_sinc_in_projection_R.
 Print Assumptions C11_channel_projection.
 Print Assumptions C11_masked_untouched.
 Print Assumptions C11_fft_per_channel.
